@@ -28,7 +28,7 @@ ZONES_NUM = ((0, "+00:00"), (540, "+09:00"), (540, "+0900"), (540, "+09"), (-480
              (330, "+05:30"), (330, "+0530"), (-210, "-03:30"), (840, "+1400"), (-720, "-12"))
 ZONES_NAMED = ((570, "ACST"), (60, "CET"), (-300, "EST"), (540, "JST"), (780, "NZDT"), (-480, "PST"), (0, "UTC"), (600, "VLAT"),
                (60, "WAT"), (0, "Z"), (540, "jst"))
-ZONES_AMBIGUOUS = ("BST", "IST", "SST")
+ZONES_AMBIGUOUS = ("ACT", "AMT", "AST", "BST", "CDT", "CST", "ECT", "GST", "IST", "LHST", "MST", "SST", "ist", "cst")
 TZ_OFFSET_ARGS = ((0, "+00:00"), (330, "+05:30"), (-480, "-0800"), (540, "+09"), (-300, "EST"), (60, "CET"), (-690, "-11:30"))
 
 
@@ -45,13 +45,16 @@ def civil_to_ns(y, mo, d, h, mi, s, frac_ns, off_min):
     return ((days_from_civil(y, mo, d) * 86400 + h * 3600 + mi * 60 + s) - off_min * 60) * NS + frac_ns
 
 
-def gen_absolute(rng, tzo_min):
-    """-> (string, instant_ns) for one documented absolute form"""
+def gen_absolute(rng, tzo_min, ambiguous=False):
+    """-> (string, instant_ns) for one documented absolute form; ambiguous: the same forms (any date, time, fraction; the
+    name glued to the time or after a blank) carrying a zone name that stands for several zones -- to be rejected"""
     y = rng.choice((1971, 1999, 2000, 2004, 2024, 2038, 2099, rng.randint(1971, 2098)))
     mo = rng.randint(1, 12)
     dmax = (31, 29 if (y % 4 == 0 and (y % 100 != 0 or y % 400 == 0)) else 28, 31, 30, 31, 30, 31, 31, 30, 31, 30, 31)[mo - 1]
     d = rng.choice((1, dmax, rng.randint(1, dmax)))
     form = rng.choice(("date_compact", "date_dash", "date_slash", "compact", "dash_space", "dash_T", "slash", "epoch"))
+    if ambiguous:
+        form = rng.choice(("compact", "dash_space", "dash_T", "dash_T", "slash"))
     if form.startswith("date_"):
         s = {"date_compact": "%04d%02d%02d", "date_dash": "%04d-%02d-%02d", "date_slash": "%04d/%02d/%02d"}[form] % (y, mo, d)
         return s, civil_to_ns(y, mo, d, 0, 0, 0, 0, tzo_min)     # a bare date means 00:00:00 in the --tz-offset zone
@@ -69,7 +72,10 @@ def gen_absolute(rng, tzo_min):
     else:
         frac_s, frac_ns = "", 0
     zk = rng.choice(("none", "num", "num", "named"))
-    if zk == "none":
+    if ambiguous:
+        zk = "ambiguous"
+        off, zs = 0, rng.choice(ZONES_AMBIGUOUS)
+    elif zk == "none":
         off, zs = tzo_min, ""
     elif zk == "num":
         off, zs = rng.choice(ZONES_NUM)
@@ -200,7 +206,10 @@ def gen_case(rng):
             table[s] = ("rel", delta, at)
             return s
         if r < 0.9:
-            s = "2020-01-01 00:00:00 " + rng.choice(ZONES_AMBIGUOUS)
+            if rng.random() < 0.3:
+                s = "2020-01-01 00:00:00 " + rng.choice(ZONES_AMBIGUOUS)
+            else:
+                s, _ = gen_absolute(rng, tzo_min, ambiguous=True)
             table[s] = ("bad",)
             return s
         s = rng.choice(NEAR_MISSES)
